@@ -175,7 +175,24 @@ func genPositionsWalk(r *rand.Rand, n int) []Step {
 func genScenario(r *rand.Rand, i int) []Step {
 	blk := func(dt int) Step { return Step{"a": "block", "dt": float64(dt)} }
 	u, v := pick(r, "u2", "u3"), "u1"
-	switch i % 23 {
+	switch i % 24 {
+	case 23: // governance raises a safety factor: a highly leveraged position becomes liquidatable while a modest one stays healthy; the
+		// bot names the liquidatable position TWICE in one message (in both lists, or twice in one list), then the other one too
+		if r.Intn(2) == 0 {
+			// (leveragelp's ValidateBasic refuses an id named twice in one message, and the begin-block sweep would liquidate the
+			// position first: here the price drop and the bot's message share a block, each position named once)
+			dup := pick(r, Step{"a": "levClosePositions", "u": "bot", "exact": true, "liq": []any{[]any{u, float64(1)}}, "sl": []any{[]any{v, float64(2)}}},
+				Step{"a": "levClosePositions", "u": "bot", "exact": true, "liq": []any{[]any{v, float64(2)}, []any{u, float64(1)}}, "sl": []any{}})
+			return []Step{{"a": "levOpen", "u": u, "p": float64(1), "sz": pick(r, "s1", "1000000"), "lev": "9"}, {"a": "levOpen", "u": v, "p": float64(1), "sz": "s1", "lev": "2"}, blk(5),
+				{"a": "feed", "asset": "ATOM", "mul": pick(r, "0.6", "0.7")}, dup, blk(5),
+				{"a": "levOpen", "u": "u3", "p": float64(1), "sz": "s1", "lev": "3"}, blk(5), {"a": "levClose", "u": v, "id": float64(2), "frac": "all"}, blk(5)}
+		}
+		dup := pick(r, Step{"a": "perpClosePositions", "u": "bot", "exact": true, "liq": []any{[]any{u, float64(1)}}, "sl": []any{[]any{u, float64(1)}}, "tp": []any{[]any{u, float64(1)}}},
+			Step{"a": "perpClosePositions", "u": "bot", "exact": true, "liq": []any{[]any{u, float64(1)}, []any{v, float64(2)}, []any{u, float64(1)}}, "sl": []any{}, "tp": []any{}})
+		return []Step{{"a": "perpOpen", "u": u, "p": float64(1), "side": pick(r, "long", "short"), "coll": "uusdc", "sz": pick(r, "s1", "1000000"), "lev": "5"},
+			{"a": "perpOpen", "u": v, "p": float64(1), "side": "long", "coll": "uusdc", "sz": "s1", "lev": "2"}, blk(5),
+			{"a": "govParam", "module": "perpetual", "field": "SafetyFactor", "value": pick(r, "1.3", "1.4")}, dup, blk(5),
+			{"a": "perpOpen", "u": "u3", "p": float64(1), "side": "long", "coll": "uusdc", "sz": "s1", "lev": "2"}, blk(5), {"a": "perpClose", "u": v, "id": float64(2), "frac": "all"}, blk(5)}
 	case 22: // a leveraged position is left alone for about ten years in ONE block gap: when the sweep finally liquidates it, what it
 		// recovers is less than the interest accrued (the deepest kind of shortfall: Repay books everything as interest, principal
 		// and part of the interest stay owed); a second borrower opens afterwards and everybody is refreshed
@@ -388,17 +405,14 @@ var wrapable = map[string]bool{"swapIn": true, "swapOut": true, "join": true, "e
 	"perpOpen": true, "perpClose": true, "perpClosePositions": true, "levClosePositions": true, "claim": true, "send": true, "spotOrder": true,
 	"execOrders": true, "commitClaimed": true, "uncommit": true, "incentive": true, "createAssetInfo": true, "cancelSpot": true, "perpOrder": true}
 
-// closeLists builds a bot's close-positions step: the requests go into one of the message's lists; one time in four the SAME
-// requests are named in a second list as well (a bot that lists a position both for liquidation and for its stop-loss), and
-// one time in four an entry is repeated within its list.
+// closeLists builds a bot's close-positions step: the requests go into one of the message's lists; one time in three the SAME
+// requests are named in a second list as well (a bot that lists a position both for liquidation and for its stop-loss).
 func closeLists(r *rand.Rand, action string, reqs []any, lists ...string) Step {
 	st := Step{"a": action, "u": "bot"}
 	first := pick(r, lists...)
-	if r.Intn(4) == 0 && len(reqs) > 0 {
-		reqs = append(reqs, reqs[r.Intn(len(reqs))])
-	}
 	st[first] = reqs
-	if r.Intn(4) == 0 {
+	// (leveragelp's ValidateBasic refuses an id named twice in one message; perpetual's does not look across the lists)
+	if r.Intn(3) == 0 && action == "perpClosePositions" {
 		second := pick(r, lists...)
 		if second != first {
 			st[second] = reqs
